@@ -55,15 +55,17 @@ JOBS = [
     dict(name='c09_lz4_compress_' + nm, props=['C09', 'C10'], entry='h_lz4_compress', enforce='carquet_lz4_compress',
          replace=['lz4_count'] + LEMMAS, unwindset=UW, min_loop_obligations=mlo,
          select=sel, timeout=5400, mem_gb=12, backend='cadical', cbmc_flags=['--slice-formula'],
-         replayer=FZ_C, wip=True, tier='thorough', **L9S)
-    for nm, sel, mlo in [
-        ('assigns', r'\.assigns\.', 0),
-        ('deref_kind', r'\.pointer_dereference\.(?!.*outside object bounds)', 0),
-        ('deref_bounds', r'\.pointer_dereference\..*outside object bounds|\.array_bounds\.', 0),
-        ('invariants', r'^carquet_lz4_compress\.\d+ ', 4),
-        ('asserts', r'\.assertion\.', 0),
-        ('post', r'\.postcondition\.', 0),
-        ('rest', r'^(?!.*(\.assigns\.|\.pointer_dereference\.|\.array_bounds\.|\.assertion\.|\.postcondition\.))(?!carquet_lz4_compress\.\d+ )', 0),
+         replayer=FZ_C, wip=False, tier='thorough', est_s=est,
+         note='ok relative to the arithmetic lemma contracts listed in trusted (c09_lz4_lemma_ext proved; space/inv/last/post undecided)',
+         **L9S)
+    for nm, sel, mlo, est in [
+        ('assigns', r'\.assigns\.', 0, 530),
+        ('deref_kind', r'\.pointer_dereference\.(?!.*outside object bounds)', 0, 230),
+        ('deref_bounds', r'\.pointer_dereference\..*outside object bounds|\.array_bounds\.', 0, 850),
+        ('invariants', r'^carquet_lz4_compress\.\d+ ', 4, 570),
+        ('asserts', r'\.assertion\.', 0, 1320),
+        ('post', r'\.postcondition\.', 0, 1340),
+        ('rest', r'^(?!.*(\.assigns\.|\.pointer_dereference\.|\.array_bounds\.|\.assertion\.|\.postcondition\.))(?!carquet_lz4_compress\.\d+ )', 0, 3000),
     ]
 ] + [
     # C10: parse-back of what the compressor stores (token nibbles, length-extension bytes, offset bytes), content
@@ -73,7 +75,11 @@ JOBS = [
     dict(name='c10_lz4_compress_parseback_' + nm, props=['C10'], entry='h_lz4_compress', enforce='carquet_lz4_compress',
          replace=['lz4_count'] + LEMMAS, unwindset=UW, min_loop_obligations=mlo, defines=['CQV_LZ4_PARSEBACK=1'],
          select=sel, timeout=5400, mem_gb=12, backend='cadical', cbmc_flags=['--slice-formula'],
-         replayer=FZ_C, wip=True, tier='thorough', **L9S)
+         replayer=FZ_C, wip=True, tier='thorough',
+         note='UNDECIDED (resources): cbmc rc=6 (solver error / memory, 12 GB) after 375 s for the asserts and invariants slices; '
+              'the format rule "last length byte < 255, 255*k + last == length - 15" is meanwhile enforced by the requires of '
+              'cqv_lemma_ext / cqv_lemma_inv in the base slices (seeded `rem > 255` is caught there).',
+         **L9S)
     for nm, sel, mlo in [
         ('asserts', r'\.assertion\.', 0),
         ('invariants', r'^carquet_lz4_compress\.\d+ ', 4),
